@@ -2,9 +2,9 @@
 
 Obligations
   theorems   Cppcheck.LibValid.*  (Props/C30.lean): the rendered documented grammar is accepted by the loader, tokenises to
-             the expected token list, parses back, and Library::isIntArgValid on it decides exactly the code denotation
-             (= union of intervals when no closed range is written with swapped bounds and all bounds fit int64);
-             float path for integer bounds; decision tables.
+             the expected token list, parses back, and Library::isIntArgValid on it decides exactly the union of the
+             intervals when all bounds fit int64 (bounds reduced modulo 2^64 otherwise); float path for integer bounds;
+             decision tables.
   C1 int     real Library::load + isIntArgValid  ==  model loadAndCheckInt     (grammar stream, off-grammar compliant
              stream, malformed stream)
   C2 float   real Library::load + isFloatArgValid ==  model loadAndCheckFloat
@@ -28,13 +28,14 @@ RULE = ("cases = (valid text, constant) pairs: grammar-generated range lists (1-
         "float bounds (d.d, exponents, shipped cfg texts) probed at the rounded bound and both neighbouring doubles; strings over "
         "the loader's alphabet outside the grammar; malformed texts (foreign characters, whitespace, '::', '1-2', empty); "
         "non-trivial = the loader accepts the text and it has a ':' or ',' (int/float), or the text is non-empty and rejected (malformed)")
-EXPLANATION = ("Lean theorems (all lengths, all 64-bit values): render(v) is accepted by the load-time check, tokenises to the expected "
-               "tokens, parses back to v, and the copied isIntArgValid algorithm accepts x iff x is in the code denotation; this equals "
-               "the union of intervals iff no closed range has swapped bounds and all bounds fit int64 (two counterexample theorems, "
-               "both replayed on the real code on every run). Float path: proved for integer bounds < 2^53 and all finite doubles; "
-               "fractional bounds / single float values / '!' are modelled exactly (correct rounding, %.12g) and validated by "
-               "correspondence only. The checker layer (value flow producing the Known constant) is outside the model and only "
-               "exercised through the CLI tie.")
+EXPLANATION = ("Lean theorems (all lengths, all integers x): render(v) is accepted by the load-time check, tokenises to the expected "
+               "tokens, parses back to v, and the copied isIntArgValid algorithm accepts x iff x is in the union of the intervals "
+               "whenever all bounds fit int64 (intValid_iff_partial; swapped bounds = empty range included); for |bound| < 2^64 the exact "
+               "behaviour is membership after reducing the bounds modulo 2^64 (intValid_exact_wrap), which refutes the statement for "
+               "arbitrary bounds (counterexample theorem, replayed on the real code on every run = known finding F-C30-b). Float path: "
+               "proved for integer bounds < 2^53 and all finite doubles; fractional bounds / single float values / '!' are modelled "
+               "exactly (correct rounding, %.12g) and validated by correspondence and a python reference only. The value flow that produces "
+               "the Known constant, and Library::load beyond <arg> children, are outside the model (CLI tie / mutated-XML stream only).")
 THEOREMS = [
     "Cppcheck.LibValid.render_compliant",
     "Cppcheck.LibValid.load_rejects_foreign",
@@ -45,6 +46,7 @@ THEOREMS = [
     "Cppcheck.LibValid.intValid_iff_partial",
     "Cppcheck.LibValid.intValid_eq_partial",
     "Cppcheck.LibValid.loadAndCheck_render",
+    "Cppcheck.LibValid.invalidArg_reported_iff",
     "Cppcheck.LibValid.intValid_iff_counterexample_wide",
     "Cppcheck.LibValid.old_single_value_clause_counterexample",
     "Cppcheck.LibValid.intValid_of_parse",
@@ -584,7 +586,7 @@ def cli_tie(ctx, res, drv, rng, cases, name):
 def run(ctx, res):
     rng = ctx.rng
     thorough = ctx.tier == "thorough"
-    scale = 6 if thorough else 1
+    scale = 20 if thorough else 1
     core.prove(ctx, res, MODULES, THEOREMS)
     drv = ctx.driver("drv_c30")
     exe = ctx.harness("c30")
@@ -723,6 +725,34 @@ def run(ctx, res):
     ops = ["D " + gen_decls(rng) for _ in range(400 * scale)]
     dimpl, dmodel = both(ctx, exe, drv, ops)
     correspond(ctx, res, "tables", ops, dimpl, dmodel, lambda op, out: "lib=1" in out and len(op.split()) > 3)
+    # P_impl for the plain case (every call argument has numbered <arg> elements only, no optional/variadic/formatstr):
+    # not-bool / not-null hold for argument k iff one of its <arg nr="k"> elements declares them
+    for op, o in zip(ops, dimpl):
+        f = op.split()
+        ncall, fmt, decls = int(f[1]), int(f[2]), [d.split(":") for d in f[3:]]
+        if fmt == 0 and ncall > 0 and decls and all(d[0] == "variadic" and not (set(d[1]) & set("ofv")) for d in decls):
+            # <arg nr="variadic"> covers every argument of the call
+            nn = any("n" in d[1] for d in decls); nb = any("b" in d[1] for d in decls)
+            got = o.split()
+            if got[:2] != ["load=0", "lib=1"] or any(not g.startswith("%d:%d%d" % (k + 1, nn, nb)) for k, g in enumerate(got[2:])):
+                res.violation("not-null/not-bool of <arg nr=\"variadic\"> not applied to every argument: %s -> %s" % (op, o), dict(op=op, impl=o), concrete=True, key=None)
+            continue
+        if fmt != 0 or ncall == 0 or any(not d[0].isdigit() or set(d[1]) & set("ofv") for d in decls):
+            continue
+        if sorted(set(int(d[0]) for d in decls)) != list(range(1, ncall + 1)) and max([int(d[0]) for d in decls] or [0]) != ncall:
+            continue
+        if max(int(d[0]) for d in decls) != ncall:
+            continue
+        want = ["load=0", "lib=1"]
+        got = o.split()
+        for k in range(1, ncall + 1):
+            mine = [d[1] for d in decls if int(d[0]) == k]
+            nn = any("n" in fl for fl in mine); nb = any("b" in fl for fl in mine)
+            g = got[1 + k] if len(got) > 1 + k else ""
+            if not g.startswith("%d:%d%d" % (k, nn, nb)):
+                res.violation("not-null/not-bool not applied as declared: %s -> %s (argument %d: declared not-null=%s not-bool=%s)" % (op, o, k, nn, nb),
+                              dict(op=op, impl=o), concrete=True, key=None)
+                break
 
     # ---- C5: CLI -----------------------------------------------------------------------------------------------
     cases = []
